@@ -18,16 +18,17 @@ def wfBlk (b : Blk) : Bool :=
   b.unalloc.all (fun o => b.slots[o]? == some Slot.free) &&
   (List.range b.slots.length).all (fun o => b.slots[o]? != some Slot.free || b.unalloc.contains o)
 
-/-- Handle records never under-count: count(h,b) ≥ live(b,h) + outstanding tokens(h,b). -/
+/-- Handle records agree with block records: count(h,b) = live(b,h) + outstanding tokens(h,b)
+(the code after repair 9cd85f1 increments by the number of addresses actually taken). -/
 def handleOk (s : St) (h b : Nat) : Bool :=
   let live := match s.blk b with | some (_, v) => liveCount h v.slots | none => 0
-  live + credTot h b s.creds ≤ hcount s h b
+  live + credTot h b s.creds == hcount s h b
 
 /-- Invariant verdict: "" if every check passes, else the name of the first failing one. -/
 def chk (s : St) : String :=
   let bs := List.range s.nb
   if !(bs.all (fun b => match s.blk b with | some (_, v) => wfBlk v | none => true)) then "wf"
-  else if !((List.range 9).all (fun h => h == 0 || bs.all (fun b => handleOk s h b))) then "handle-lt-block"
+  else if s.stale == 0 && !((List.range 9).all (fun h => h == 0 || bs.all (fun b => handleOk s h b))) then "handle-ne-block"
   else ""
 
 end CalicoVerif.C19
